@@ -349,6 +349,14 @@ def write_records(path: Path, job: Dict[str, Any]) -> Dict[str, Any]:
         for k, (o, d, cls) in enumerate(pairs):
             w(route_record(view, rn, "osm", f"{job['id']}#{k}", o, d, cls, with_pi=not fw and job.get("with_pi", True)))
             n_routes += 1
+        # the same pairs of LINKS asked again from other positions along them (whatever the network remembers of earlier
+        # answers must not leak into later ones)
+        again = rng.sample(pairs, min(len(pairs), max(10, len(pairs) // 5)))
+        for k, (o, d, cls) in enumerate(again):
+            o2, _ = position(view, str(o.link_id), rng.choice(["start", "mid", "end"]), rng)
+            d2, _ = position(view, str(d.link_id), rng.choice(["start", "mid", "end"]), rng)
+            w(route_record(view, rn, "osm", f"{job['id']}#again{k}", o2, d2, cls + "/asked_again", with_pi=not fw and job.get("with_pi", True)))
+            n_routes += 1
         import h3
 
         for k in range(job.get("snaps", 40)):
